@@ -224,6 +224,16 @@ def named_family():
         {"name": "f", "type": {"type": "fixed", "name": "F2", "size": 2}, "default": "ab"}, {"name": "g", "type": "F2", "default": "\u0000\u00fe"},
         {"name": "r", "type": {"type": "record", "name": "In", "fields": [{"name": "x", "type": "bytes"}]}, "default": {"x": "zz"}},
         {"name": "u", "type": ["bytes", "null"], "default": "q"}]})
+    # record branches for which a conforming datum may name no field at all: a field-less marker record, an all-defaults record
+    ping = {"type": "record", "name": "Ping", "fields": []}
+    alld = {"type": "record", "name": "AllDef", "fields": [{"name": "a", "type": "int", "default": 1}, {"name": "b", "type": "string", "default": "x"}]}
+    out.append(["null", ping])
+    out.append([copy.deepcopy(ping), "string", copy.deepcopy(alld)])
+    out.append(rec("R", ["null", copy.deepcopy(alld)], {"type": "array", "items": ["int", copy.deepcopy(ping)]}))
+    # decimals wider than the 28 digits of Python's default decimal context
+    out.append(rec("R", {"type": "bytes", "logicalType": "decimal", "precision": 38, "scale": 9},
+                   {"type": "fixed", "name": "D16", "size": 16, "logicalType": "decimal", "precision": 38, "scale": 0},
+                   {"type": "map", "values": {"type": "bytes", "logicalType": "decimal", "precision": 30, "scale": 30}}))
     # {"type": "int"}-style wrapped primitives
     out.append(rec("R", {"type": "int"}, {"type": "string"}, {"type": "null"}))
     out.append({"type": "array", "items": {"type": "long"}})
